@@ -6,7 +6,6 @@ import contextlib
 import glob
 import os
 import subprocess
-import sys
 import typing as tp
 
 from xonsh.built_ins import XSH
@@ -166,6 +165,7 @@ def _get_cwd():
 
 
 def _change_working_directory(newdir, follow_symlinks=False):
+    """Returns an error message if the directory could not be changed."""
     env = XSH.env
     old = env["PWD"]
     new = os.path.join(old, newdir)
@@ -177,8 +177,7 @@ def _change_working_directory(newdir, follow_symlinks=False):
     try:
         os.chdir(absnew)
     except OSError as e:
-        print(f"cd: {e}", file=sys.stderr)
-        return
+        return f"cd: {e}\n"
     else:
         if old is not None:
             env["OLDPWD"] = old
@@ -280,11 +279,15 @@ def cd(args, stdin=None):
         )
 
     # now, push the directory onto the dirstack if AUTO_PUSHD is set
+    stack = list(DIRSTACK)
     if cwd is not None and env.get("AUTO_PUSHD"):
         pushd(["-n", "-q", cwd])
         if ON_WINDOWS and _is_unc_path(d):
             d = _unc_map_temp_drive(d)
-    _change_working_directory(d, follow_symlinks)
+    err = _change_working_directory(d, follow_symlinks)
+    if err:
+        DIRSTACK[:] = stack
+        return "", err, 1
     return None, None, 0
 
 
@@ -323,6 +326,7 @@ def pushd_fn(
     env = XSH.env
 
     pwd = env["PWD"]
+    stack = list(DIRSTACK)
 
     if env.get("PUSHD_MINUS", False):
         BACKWARD = "-"
@@ -368,7 +372,10 @@ def pushd_fn(
             new_pwd = _unc_map_temp_drive(new_pwd)
         if cd:
             DIRSTACK.insert(0, os.path.expanduser(pwd))
-            _change_working_directory(new_pwd)
+            err = _change_working_directory(new_pwd)
+            if err:
+                DIRSTACK = stack
+                return None, err, 1
         else:
             DIRSTACK.insert(0, os.path.expanduser(new_pwd))
 
@@ -467,7 +474,10 @@ def popd_fn(
             env = XSH.env
             pwd = env["PWD"]
 
-            _change_working_directory(new_pwd)
+            err = _change_working_directory(new_pwd)
+            if err:
+                DIRSTACK.insert(0, new_pwd)
+                return None, err, 1
 
             if ON_WINDOWS:
                 drive, rem_path = os.path.splitdrive(pwd)
